@@ -474,7 +474,57 @@ def eval_merge(case):
   return None, info
 
 
-EVAL = dict(transform=eval_transform, perm=eval_perm, merge=eval_merge)
+DEADZONE_XML = '''<mujoco><compiler angle="radian" autolimits="false"/><option timestep="0.01" gravity="0 0 0"/>
+<worldbody><body name="a" pos="0 0 1"><freejoint/><geom type="sphere" size="0.1" mass="1" contype="0" conaffinity="0"/>
+<body name="b" pos="0.5 0 0"><joint type="hinge" axis="0 0 1" pos="0 0 0" limited="false"/>
+<geom type="sphere" size="0.1" mass="1" contype="0" conaffinity="0"/></body></body></worldbody></mujoco>'''
+
+
+def eval_state_transform(case):
+  """state-level transform clause on the positional pipeline: a well-shaped state at rest whose child link is
+  displaced from its joint by `eps` (so that the world-frame joint displacement has length |eps|), stepped once in the
+  original frame and in the frame transformed by g (rotation about z by `angle`, translation `t`).  Listed finding:
+  for 1e-8 < |eps| < sqrt(3)*1e-8 `math.safe_norm`'s coordinate-wise zero test (a cube, not a ball) suppresses the
+  joint correction in one frame and not in the other."""
+  _setup()
+  import jax.numpy as jp
+  from brax import kinematics, math as bmath
+  from brax.base import Transform, Motion
+  from brax.io import mjcf
+  from brax.positional import pipeline
+  sysm = mjcf.loads(case.get('xml', DEADZONE_XML))
+  eps = jp.asarray(case['eps'], dtype=jp.float64)
+  ang, t = float(case['angle']), jp.asarray(case['t'], dtype=jp.float64)
+  grot = jp.array([np.cos(ang / 2), 0.0, 0.0, np.sin(ang / 2)])
+  st = pipeline.init(sysm, sysm.init_q, jp.zeros(sysm.qd_size()))
+  def rebuild(st, x, xd, x_i, xd_i):
+    j, jd, a_p, a_c = kinematics.world_to_joint(sysm, x, xd)
+    return st.replace(x=x, xd=xd, x_i=x_i, xd_i=xd_i, j=j, jd=jd, a_p=a_p, a_c=a_c)
+  shift = jp.zeros((2, 3)).at[1].set(eps)
+  st0 = rebuild(st, st.x.replace(pos=st.x.pos + shift), st.xd, st.x_i.replace(pos=st.x_i.pos + shift), st.xd_i)
+  def act(x):
+    return Transform(pos=t + jp.stack([bmath.rotate(p, grot) for p in x.pos]),
+                     rot=jp.stack([bmath.quat_mul(grot, r) for r in x.rot]))
+  def actm(m):
+    return Motion(ang=jp.stack([bmath.rotate(a, grot) for a in m.ang]), vel=jp.stack([bmath.rotate(v, grot) for v in m.vel]))
+  stg = rebuild(st0, act(st0.x), actm(st0.xd), act(st0.x_i), actm(st0.xd_i))
+  s1 = pipeline.step(sysm, st0, jp.zeros(0))
+  s1g = pipeline.step(sysm, stg, jp.zeros(0))
+  exp_x, exp_xd = act(s1.x), actm(s1.xd)
+  err = dict(x_pos=float(jp.abs(exp_x.pos - s1g.x.pos).max()), xd_ang=float(jp.abs(exp_xd.ang - s1g.xd.ang).max()),
+             xd_vel=float(jp.abs(exp_xd.vel - s1g.xd.vel).max()))
+  worst = max(err.values())
+  info = dict(worst=worst, err=err)
+  if worst > 1e-7:
+    n_eps = float(np.linalg.norm(np.asarray(case['eps'], dtype=float)))
+    in_shell = 1e-8 < n_eps <= np.sqrt(3) * 1e-8 * (1 + 1e-9)
+    return dict(key='transform:positional:safe-norm-dead-zone' if in_shell else 'transform:positional:state',
+                what=f'positional: stepping the transformed STATE differs from transforming the stepped state (joint displaced '
+                     f'by eps={list(case["eps"])}): errors {err}', err=err), info
+  return None, info
+
+
+EVAL = dict(transform=eval_transform, perm=eval_perm, merge=eval_merge, state_transform=eval_state_transform)
 
 
 # ----------------------------------------------------------------------------- shrinking
@@ -818,6 +868,18 @@ def correspond(ctx):
   units = run_units(ctx, 0, n_pairs, nsteps, n_states, deadline=time.time() + ctx.budget(140.0, 960.0))
   n_lines, dis = lean_leg(units)
   fails = collect(ctx, units, shrink_budget=ctx.budget(40.0, 120.0))
+  # state-level transform clause on the positional pipeline (hand-built well-shaped states: a joint displaced by eps),
+  # OUTSIDE the dead zone of math.safe_norm (the shell 1e-8 .. sqrt(3)e-8 is the listed finding, re-run below)
+  rng_s = np.random.default_rng(ctx.seed + 4242)
+  for k in range(ctx.budget(2, 10)):
+    mag = 10.0 ** rng_s.uniform(-6.5, -3)
+    d = rng_s.normal(size=3); d = d / np.linalg.norm(d) * mag
+    case = dict(clause='state_transform', pipeline='positional', eps=d.tolist(),
+                angle=float(rng_s.uniform(0.2, 3.0)), t=rng_s.uniform(-3, 3, size=3).tolist())
+    f, _ = eval_state_transform(case)
+    if f is not None:
+      f.update(case); f['occurrences'] = 1
+      fails.append(f)
   tot, hist, shapes, per_pipe, limits = summarise(units)
   n_models = sum(hist.values())
   first = next((row for u in units for row in u['lean']), None)
